@@ -127,5 +127,8 @@ func init() {
 		}
 		results := e1RunAll(c, specs, 16)
 		e1Summary(c, results)
+		// TLA+ model of the protocol, bound to the code in both directions, then TLC for larger N
+		c.Rule("model part (models/HandOff.tla, one action per scheduling point): TLC dumps the complete state graph for N = 1..3 tasks, encoder and decoder, every failure placement / end-marker position / bad payload chosen in Init; every execution of the conformance scenarios (all interleavings) is cut into batches and walked through the graph (impl -> model), and every transition of every graph is replayed on the real code as a directed schedule whose events must equal the path's labels (model -> impl); only then TLC's verdict for N = 4 (5, 6 in thorough) on mutual exclusion, order, cancel final and sticky, complete join, termination under weak fairness is counted. A conformance failure is reported as 'not completed', never as a violation")
+		e1bRun(c)
 	})
 }
